@@ -53,7 +53,7 @@ open World
   | dangling => rfl
   | to y => simp only; split <;> rfl
 
-@[simp] theorem freeBox_rc (w : World) (y x : Id) : ((w.freeBox y).heap x).rc = (w.heap x).rc := by
+theorem freeBox_rc (w : World) (y x : Id) : ((w.freeBox y).heap x).rc = (if x = y then 0 else (w.heap x).rc) := by
   by_cases h : x = y <;> simp [freeBox, upd, emit, Heap.set, h]
 theorem freeBox_boxLive (w : World) (y x : Id) : ((w.freeBox y).heap x).boxLive = (if x = y then false else (w.heap x).boxLive) := by
   by_cases h : x = y <;> simp [freeBox, upd, emit, Heap.set, h]
